@@ -103,7 +103,7 @@ func c02StubWrite(_ *blockWriter, _ common.SeriesID, _, _ []int64, _ [][]nameVal
 }
 func c02StubFlush(_ *blockWriter, _ *partMetadata, _ *tagType) {}
 
-//verif:harness prop=C02 tier=quick,thorough reach=deduped paths=400000 redirect=blockWriter.MustInitForMemPart:c02StubInit,blockWriter.MustWriteDataPoints:c02StubWrite,blockWriter.Flush:c02StubFlush random=0
+//verif:harness prop=C02,C01 tier=quick,thorough reach=deduped paths=400000 redirect=blockWriter.MustInitForMemPart:c02StubInit,blockWriter.MustWriteDataPoints:c02StubWrite,blockWriter.Flush:c02StubFlush random=0
 // Building a memory part from one write batch: after the real sort and de-duplication loop the
 // batch holds one row per (series, timestamp), in (series, timestamp) order, and that row is one
 // with the greatest version among the written duplicates, with its own field value; no
